@@ -337,8 +337,9 @@ func (cs *c20SkCase) atomCause(a c20SkAtom, first map[string]string) int {
 }
 
 // multiKind names the cause of a wrongly pruned block. It does not model the readers: the same case is executed again on
-// the real code with the atoms of a cause class replaced by an atom no skip index can know anything about (`n != <literal>`
-// on the non-indexed column, i.e. what a reader without the defect would make of them). A cause (or, if no single one
+// the real code with the atoms of a cause class replaced by an atom the reader in question never probes (ip reader: `!=` on the
+// same column; full-text reader: `n != <literal>` on the non-indexed column), i.e. what a reader without the defect would make
+// of them. A cause (or, if no single one
 // suffices, the first of a pair) is named only if that makes the real readers keep every block that is needed for the
 // ORIGINAL condition; everything else is the catch-all of the index.
 func (cs *c20SkCase) multiKind(env *c20SkEnv, need uint16) (kind, why string) {
@@ -371,7 +372,14 @@ func (cs *c20SkCase) multiKind(env *c20SkEnv, need uint16) (kind, why string) {
 		alt.Atoms = append([]c20SkAtom(nil), cs.Atoms...)
 		for i, a := range alt.Atoms {
 			if c := cs.atomCause(a, first); c >= 0 && set&(1<<c) != 0 {
-				alt.Atoms[i] = c20SkAtom{Col: nonIdx, Typ: cs.Types[len(cs.Types)-1], Op: "!=", Lit: a.Lit}
+				if c == 2 {
+					// full-text reader: every atom on an index column is probed, so the neutral atom sits on the non-indexed column
+					alt.Atoms[i] = c20SkAtom{Col: nonIdx, Typ: cs.Types[len(cs.Types)-1], Op: "!=", Lit: a.Lit}
+				} else {
+					// ip reader: `!=` is never probed; staying on the atom's own column keeps the order in which the condition
+					// mentions the index columns, i.e. the column whose filter file the reader opens
+					alt.Atoms[i] = c20SkAtom{Col: a.Col, Typ: a.Typ, Op: "!=", Lit: a.Lit}
+				}
 			}
 		}
 		cov, _, et := alt.runMulti(env)
